@@ -408,7 +408,7 @@ class PegSim:
                 if r.status == ERR:
                     return Res(OK, pos)
                 return r
-            if n in ("many0", "many1", "many0_count", "many1_count"):
+            if n in ("many0", "many1", "many0_count", "many1_count", "fold_many0", "fold_many1"):
                 ops = []
                 p = pos
                 k = 0
@@ -425,7 +425,7 @@ class PegSim:
                     k += 1
                     if k > 200:
                         return Res(UNK, p, ops, "repetition bound")
-                if n.startswith("many1") and k == 0:
+                if n.endswith("many1") and k == 0 or n == "many1_count" and k == 0:
                     return Res(ERR, pos)
                 return Res(OK, p, ops)
             if n in ("separated_list0", "separated_list1"):
